@@ -195,6 +195,8 @@ func init() {
 				Bounds: [2]string{"2 pixels", "same"}},
 			{Pkg: "jpeg2000", Fn: "VerifC04EndToEnd", Desc: "whole reversible single-tile pipeline Encode -> codestream -> Decode -> GetPixelData on tiny images, symbolic pixels, levels 0..1, progression orders",
 				Bounds: [2]string{"1x1, 2x1, 1x2 at P=2, progression 0..1", "1x1..2x2 and 1x1x3 at P in {2,3}, all 5 progression orders"}, Params: [2]map[string]int64{P("ngeom", 3, "nP", 1, "nprog", 2), P("ngeom", 5, "nP", 2, "nprog", 5)}, Enumerative: true, BudgetS: [2]int{300, 3000}},
+			{Pkg: "jpeg2000", Fn: "VerifC04Structure", Desc: "codestream structure over configurations (fixed pseudo-random contents, one path per configuration, real encoder/packet writer/parser/packet reader/decoder): 7 image sizes incl. 33x33, 17x8, 1x9; 1 and 3 components; levels; 5 progression orders; precinct sizes {default, 8, 32}; code-blocks {4, 8, 64}; layers",
+				Bounds: [2]string{"6 sizes up to 17x9, levels 0..1, precinct {default,8}, code-block {4,8}, layers 1..2 (960 configurations)", "levels 0..2, precinct {default,8,32}, code-block {4,8,64}, layers 1..2 (2940 configurations)"}, Params: [2]map[string]int64{P("nsize", 6, "maxLevels", 1, "nprec", 2, "ncb", 2, "maxLayers", 2), P("nsize", 7, "maxLevels", 2, "nprec", 3, "ncb", 3, "maxLayers", 2)}, Enumerative: true, MaxSteps: 4_000_000_000, BudgetS: [2]int{600, 3000}},
 			{Pkg: "jpeg2000/t2", Fn: "VerifC04PacketCodes", Desc: "packet-header pass-count code for every count 1..164 through the real bit writer/reader with following bits", Bounds: [2]string{"all 164 counts", "same"}, Enumerative: true},
 			{Pkg: "jpeg2000/t2", Fn: "VerifC16Bio", Label: "packet-header-bit-io", Desc: "packet-header bit writer/reader with FF bit-stuffing: written values come back", Bounds: [2]string{"K <= 2 writes of widths {1,3,8}", "K <= 3"}, Params: [2]map[string]int64{P("maxK", 2), P("maxK", 3)}, Enumerative: true},
 			{Pkg: "jpeg2000/wavelet", Fn: "VerifC20DWT2D", Label: "dwt53-2d", Desc: "multi-level 5/3 DWT with origin parity is exactly invertible (all values)", Bounds: [2]string{"w,h <= 8, levels 0..3", "w,h <= 16, levels 0..5"}, Params: [2]map[string]int64{P("maxS", 8, "maxLevels", 3), P("maxS", 16, "maxLevels", 5)}},
@@ -215,6 +217,8 @@ func init() {
 				Bounds: [2]string{"images <= 4x4", "images <= 6x6"}, Params: [2]map[string]int64{P("maxS", 4), P("maxS", 6)}},
 			{Pkg: "jpeg2000", Fn: "VerifC04EndToEnd", Label: "tiled-end-to-end", Desc: "multi-tile Encode -> Decode on tiny images with symbolic pixels: every tile size smaller than the image (partial tiles, odd origins), levels 0..1",
 				Bounds: [2]string{"2x1, 1x2, 2x2 at P=2", "+ 3x2, 3x1 at P=2"}, Params: [2]map[string]int64{P("geom0", 1, "ngeom", 4, "tiles", 1), P("geom0", 1, "ngeom", 7, "tiles", 1)}, Enumerative: true, BudgetS: [2]int{400, 3000}},
+			{Pkg: "jpeg2000", Fn: "VerifC04Structure", Label: "tiled-structure", Desc: "multi-tile codestream structure over configurations (fixed pseudo-random contents, one path per configuration): 7 image sizes, tiles 8x8 / 16x8 / 4x8 (partial right and bottom tiles, one-sample-wide tiles, tiles smaller than the default code-block), 1 and 3 components, levels (tile sizes a multiple of 2^levels: the odd-origin case is known finding F17), 5 progression orders, layers 1..3, default code-block and precinct size",
+				Bounds: [2]string{"6 sizes up to 17x9, levels 0..1, layers 1..2", "7 sizes up to 33x33, levels 0..2, layers 1..3"}, Params: [2]map[string]int64{P("nsize", 6, "maxLevels", 1, "nprec", 1, "cb0", 2, "ncb", 3, "maxLayers", 2, "tiles", 1), P("nsize", 7, "maxLevels", 2, "nprec", 1, "cb0", 2, "ncb", 3, "maxLayers", 3, "tiles", 1)}, Enumerative: true, MaxSteps: 4_000_000_000, BudgetS: [2]int{600, 3000}},
 		}})
 
 	wrapDesc := "every listed codec wrapper through the go-dicom codec interface on 2x2 8-bit frames: one output frame per input frame in order; frame i equals a fresh codec's output for frame i alone and the same object's output on a later call; caller buffers unchanged; decoded length Rows*Cols*SPP*ceil(BitsAllocated/8) and, for lossless syntaxes, the source bytes; the engine's write log shows no store into a package-level variable, the codec object, the shared (already valid) parameters object or a caller buffer"
